@@ -399,7 +399,7 @@ def run(ctx):
                 "negative around ulp(L)/4..ulp(L), at +-L +-ulp, integer multiples +-ulp up to 2^53 L, +-L/2 +-ulp, k L +- L/2, "
                 "in box, near, far). A case class = (function, branch of CPython float_rem taken, +L rounded or exact, "
                 "distance bucket, image index 0 or not, result at -L/2 / +L/2 / inside)")
-    budget = ctx.n(150000, 3000000)         # implementation evaluations
+    budget = ctx.n(150000, 2000000)         # implementation evaluations
     per_cfg = ctx.n(150, 600)
 
     # --- self-check of the kernel-reducible fmod against libm
